@@ -140,7 +140,7 @@ Definition sinv (s : sstate) (act : list reg) : Prop :=
 Lemma sinv_step : forall c valid s act o s' r ev, sinv s act ->
   sstep c valid s o = (s', r, ev) -> sinv s' (track act o r).
 Proof.
-  intros c valid s act o s' r ev [Hp Hn] H. destruct o as [o | cn obj sig uid mid | cn obj sig uid | x].
+  intros c valid s act o s' r ev [Hp Hn] H. destruct o as [o | cn obj sig uid mid | cn obj sig uid | x | cn a].
   - assert (s_regs s' = s_regs s) as E.
     { destruct (not_subscribe o) eqn:Ho.
       - rewrite sop_is_pstep in H by exact Ho.
@@ -169,6 +169,25 @@ Proof.
     + eapply Permutation_NoDup; [apply Permutation_map, Permutation_sym, Hl|].
       apply nodup_keys_filter. exact Hn.
   - cbn [sstep] in H. inversion H; subst. cbn [track]. split; auto.
+  - cbn [sstep] in H. inversion H; subst. cbn [track]. split; auto.
+Qed.
+
+(* ---- the object's other methods (statistics and traces switched on or off, metaObject, ...) are
+   transparent: nothing changes, nothing is emitted ---- *)
+Lemma aux_transparent : forall c valid s cn a, sstep c valid s (SAux cn a) = (s, RDone, []).
+Proof. reflexivity. Qed.
+
+Definition is_aux (o : sop) : bool := match o with SAux _ _ => true | _ => false end.
+
+(* ... so such calls can be erased from any sequence, wherever they stand and whichever connection
+   makes them: the object ends in the same state and the clients know the same registrations *)
+Lemma srun_erase_aux : forall c valid ops s act,
+  srun c valid s act (filter (fun o => negb (is_aux o)) ops) = srun c valid s act ops.
+Proof.
+  intros c valid ops. induction ops as [|o r IH]; intros s act; [reflexivity|].
+  destruct o as [o | cn obj sig uid mid | cn obj sig uid | x | cn a]; cbn [filter is_aux negb srun].
+  1-4: match goal with |- context [sstep ?c ?v ?s ?o] => destruct (sstep c v s o) as [[s1 res] ev] end; apply IH.
+  cbn [sstep track]. apply IH.
 Qed.
 
 Lemma sinv_run : forall c valid ops s act s' act', sinv s act ->
@@ -213,6 +232,18 @@ Definition ex_sops : list sop :=
    SOp (PSet (NmUint prop_uid) (i32 (2 ^ 32 - 1)));
    SOp (PUpdate 35)].
 
+(* statistics switched on by connection 2; connections 0 and 1 do the same thing (same user id);
+   traces switched on by connection 0, statistics off by connection 1; connection 1 leaves *)
+Definition ex_feature_sops : list sop :=
+  [SAux 2 81;
+   SRegister 0 1 prop_uid 42 5;
+   SRegister 1 1 prop_uid 42 5;
+   SOp (PSet (NmStr prop_name) (i32 33));
+   SAux 0 85; SAux 1 81;
+   SOp (PUpdate 34);
+   SUnregister 1 1 prop_uid 42;
+   SOp (PSet (NmStr prop_name) (i32 35))].
+
 Fixpoint srun_out (c : pcfg) (valid : N -> bool) (s : sstate) (ops : list sop) : list (pres * list sevent) :=
   match ops with
   | [] => []
@@ -230,3 +261,12 @@ Lemma ex_sseq : srun_out pcfg_clean nonneg sinit ex_sops =
    (RDone, [(prop_uid, ((0%nat, 11), le 4 35))])]
   /\ snd (srun pcfg_clean nonneg sinit [] ex_sops) = [mk_reg 1 42 boom_uid 3; mk_reg 0 42 prop_uid 11].
 Proof. vm_compute. split; reflexivity. Qed.
+
+Lemma ex_feature_seq : srun_out pcfg_clean nonneg sinit ex_feature_sops =
+  [(RDone, []); (RDone, []); (RDone, []);
+   (RDone, [(prop_uid, ((0%nat, 5), le 4 33)); (prop_uid, ((1%nat, 5), le 4 33))]);
+   (RDone, []); (RDone, []);
+   (RDone, [(prop_uid, ((0%nat, 5), le 4 34)); (prop_uid, ((1%nat, 5), le 4 34))]);
+   (RDone, []);
+   (RDone, [(prop_uid, ((0%nat, 5), le 4 35))])].
+Proof. vm_compute. reflexivity. Qed.
